@@ -38,7 +38,7 @@ ASSUMPTIONS = [
     "xlsx workbooks carry the wall clock in their zip metadata: 'byte-identical' is checked on decoded cell contents",
     "the hash seed cannot be varied inside a process; stage B varies it across child processes",
 ]
-REQUIRED = {"failing_evaluation": 10, "stratum:shared_names": 15, "stratum:underspecified": 15, "stratum:nested_forms": 8, "stratum:shared_elements": 8, "interleaved_eval": 40, "models>=2": 60,
+REQUIRED = {"failing_evaluation": 10, "stratum:colliding_arguments": 3, "stratum:shared_names": 15, "stratum:underspecified": 15, "stratum:nested_forms": 8, "stratum:shared_elements": 8, "interleaved_eval": 40, "models>=2": 60,
             "op:rebuild_write": 25, "hashseed_models": 20}
 
 
@@ -136,6 +136,24 @@ def _models(draw, stratum):
             m["density_fs"] = [e for e in m["density_fs"] if (e[0], e[1]) not in (("Al", "Cu"), ("Cu", "Al"))] + [
                 ["Al", "Cu", leaf(3)], ["Cu", "Al", leaf(2)]]
             m["pair"] = [e for e in m["pair"] if set((e[0], e[1])) != {"Al", "Cu"}] + [["Al", "Cu", leaf(1.5)]]
+            ms.append(m)
+    elif stratum == "colliding_arguments":
+        # one formula shared by every [Pair] entry of a model, called with parameter lists that differ but collide
+        # under a lossy key: hash(-1.0) == hash(-2.0), hash(1.0) == hash(2.0**61), hash(0.5) == hash(2.0**60),
+        # 3 == 3.0 (an int and a float), and lists that agree in all but the last parameter.  The history evaluates
+        # the entries one after the other at the SAME separation (see _case)
+        V = lambda nm: {"o": "var", "n": nm}
+        fam = [[-1.0, -2.0], [1.0, 2.0 ** 61], [2.0 ** 60, 0.5], [-2.0, -1.0, 1.0], [3.0, 3.5], [2.5, -2.5]]
+        for i in range(n):
+            m = draw(gen.any_model(["LAMMPS", "DL_POLY", "GULP"], 2, 3, depth=0, tables=False, customs=False))
+            two = draw(st.booleans())
+            expr = {"o": "+", "a": {"o": "*", "a": V("k"), "b": V("r")}, "b": V("c")} if two else {"o": "*", "a": V("k"), "b": V("r")}
+            m["env"]["custom"] = [{"name": "lin", "params": ["r", "c", "k"] if two else ["r", "k"], "expr": expr}]
+            ks = draw(st.sampled_from(fam))
+            ks = ks if draw(st.booleans()) else ks[::-1]
+            c0 = draw(st.sampled_from([0.25, 1.0, -3.0]))
+            for j, e in enumerate(m["pair"]):
+                e[2] = {"ranges": [{"m": None, "s": None, "body": {"k": "custom", "name": "lin", "p": ([c0] if two else []) + [ks[j % len(ks)]]}}]}
             ms.append(m)
     elif stratum == "underspecified":
         for i in range(n):
@@ -235,6 +253,14 @@ def _case(draw, stratum):
         else:
             rs = [0.5, 1.0, 1.7, 2.25, 3.0] if stratum != "failing_evals" else [0.0, 0.5, 0.5, 1.0, 1.7, 2.25, 3.0]
             ops.append([k, draw(st.integers(0, 9)), draw(st.integers(0, 9)), draw(st.sampled_from(rs))])
+    if stratum == "colliding_arguments":
+        # every function of every built model at one separation, back to back, twice over in changing order
+        for _ in range(draw(st.integers(1, 3))):
+            r = draw(st.sampled_from([0.5, 1.0, 1.7, 2.25, 3.0]))
+            t = draw(st.integers(0, 9))
+            order = draw(st.permutations([0, 1, 2, 3]))
+            for fi in list(order) + list(order[::-1]):
+                ops.append(["eval", t, fi, r])
     ops.append(["write", 0])
     return {"stratum": stratum, "models": ms, "ops": ops}
 
@@ -246,7 +272,7 @@ def strategy(tier):
 def strata(tier):
     return [("mixed", _case("mixed"), 4), ("shared_names", _case("shared_names"), 2.5), ("shared_caller", _case("shared_caller"), 2), ("fs_same_entries", _case("fs_same_entries"), 1.5), ("underspecified", _case("underspecified"), 3),
             ("failing_evals", _case("failing_evals"), 3), ("nested_forms", _case("nested_forms"), 3),
-            ("shared_elements", _case("shared_elements"), 2)]
+            ("shared_elements", _case("shared_elements"), 2), ("colliding_arguments", _case("colliding_arguments"), 2.5)]
 
 
 def budget(tier):
@@ -297,9 +323,12 @@ def check_case(case):
                 try:
                     out = _written(tab, ms[mi]["target"])
                 except Exception as e:
-                    if case["stratum"] != "failing_evals":
+                    # a model whose function is undefined on the grid (the library's documented evaluation error) is a
+                    # refused tabulation, not a determinism failure: the refusal is the outcome that has to repeat
+                    if case["stratum"] != "failing_evals" and type(e).__name__ != "Potential_Form_Exception":
                         raise
                     out = "FAILS:" + type(e).__name__
+                    cls.append("failing_write")
                 if mi in first and out != first[mi]:
                     v.append(("write_differs:%s" % kind, "operation %d (%r): output of model %d differs from its first write "
                               "(%d vs %d characters, digests %s vs %s)\n%s" % (oi, op, mi, len(out), len(first[mi]),
@@ -321,7 +350,7 @@ def check_case(case):
                 try:
                     got = f(r)
                 except Exception as e:
-                    if case["stratum"] != "failing_evals":
+                    if case["stratum"] != "failing_evals" and type(e).__name__ != "Potential_Form_Exception":
                         raise
                     got = "FAILS:" + type(e).__name__
                     cls.append("failing_evaluation")
